@@ -153,7 +153,7 @@ func appendItems(v ssa.Value, at ssa.Instruction) ([]Item, error) {
 			for _, e := range els {
 				it := Item{Kind: "byte", Src: R(e.v), At: at}
 				if _, isC := ConstInt(e.v); !isC {
-					it.Bits = bitsOfEncoded(e.v, 0)
+					it.Bits = bitsOfEncoded(e.v, 0, at.Block())
 				}
 				out = append(out, it)
 			}
@@ -171,30 +171,51 @@ func appendItems(v ssa.Value, at ssa.Instruction) ([]Item, error) {
 }
 
 // bitsOfEncoded decomposes a packed byte expression into bit fields.
-func bitsOfEncoded(v ssa.Value, depth int) []Bit {
+// bitsOfEncoded describes how a byte is put together. use is the block in which the byte is emitted: a
+// conditionally OR-ed constant is described by ALL the tests that decide it between there and its own block
+// (`fr.Control`, or `!fr.Done & fr.Control` if it sits in a later arm of a switch), not by one of them.
+func bitsOfEncoded(v ssa.Value, depth int, use *ssa.BasicBlock) []Bit {
 	if depth > 8 {
 		return []Bit{{Mask: 0xff, Src: "?" + R(v)}}
 	}
 	switch x := v.(type) {
 	case *ssa.Convert:
-		return bitsOfEncoded(x.X, depth+1)
+		return bitsOfEncoded(x.X, depth+1, use)
 	case *ssa.ChangeType:
-		return bitsOfEncoded(x.X, depth+1)
+		return bitsOfEncoded(x.X, depth+1, use)
 	case *ssa.BinOp:
 		switch x.Op {
 		case token.OR:
 			if k, ok := ConstInt(x.Y); ok {
-				// conditional constant: source is the guard of this block
+				// conditional constant: source is the conjunction of the tests that hold here but not at the emission
 				src := "const"
-				for _, g := range GuardsOf(x.Block()) {
-					if g.True {
-						src = R(g.Cond)
-						break
+				common := map[string]bool{}
+				if use != nil {
+					for _, g := range GuardsOf(use) {
+						common[fmt.Sprintf("%v %p", g.True, g.Cond)] = true
 					}
 				}
-				return append(bitsOfEncoded(x.X, depth+1), Bit{Mask: uint64(k), Src: src})
+				var lits []string
+				for _, g := range GuardsOf(x.Block()) {
+					if common[fmt.Sprintf("%v %p", g.True, g.Cond)] {
+						continue
+					}
+					if _, isConst := g.Cond.(*ssa.Const); isConst {
+						continue
+					}
+					l := R(g.Cond)
+					if !g.True {
+						l = "!" + l
+					}
+					lits = append(lits, l)
+				}
+				if len(lits) > 0 {
+					sort.Strings(lits)
+					src = strings.Join(lits, "&")
+				}
+				return append(bitsOfEncoded(x.X, depth+1, use), Bit{Mask: uint64(k), Src: src})
 			}
-			return append(bitsOfEncoded(x.X, depth+1), bitsOfEncoded(x.Y, depth+1)...)
+			return append(bitsOfEncoded(x.X, depth+1, use), bitsOfEncoded(x.Y, depth+1, use)...)
 		case token.SHL:
 			if s, ok := ConstInt(x.Y); ok {
 				w := typeWidthMask(x.X.Type())
@@ -205,7 +226,7 @@ func bitsOfEncoded(v ssa.Value, depth int) []Bit {
 		var out []Bit
 		seen := map[string]bool{}
 		for _, e := range x.Edges {
-			for _, b := range bitsOfEncoded(e, depth+1) {
+			for _, b := range bitsOfEncoded(e, depth+1, use) {
 				if !seen[b.String()] {
 					seen[b.String()] = true
 					out = append(out, b)
